@@ -397,6 +397,51 @@ pub fn explore_c11(rep: &Report, finish: bool) -> i32 {
             }
         });
     }
+    // ---- mates given by castling, en passant or promotion (complete special-move families, filtered by the rules)
+    let special_mates = special_move_check_positions(true, 1);
+    let sm_searched = AtomicU64::new(0);
+    let sm_unannounced = AtomicU64::new(0);
+    {
+        let idx = AtomicUsize::new(0);
+        std::thread::scope(|s| {
+            for _ in 0..threads() {
+                s.spawn(|| loop {
+                    let i = idx.fetch_add(1, Ordering::Relaxed);
+                    if i >= special_mates.len() {
+                        break;
+                    }
+                    let pos = &special_mates[i];
+                    let root = fresh_root(pos, &h);
+                    let run = run_search(&root.board, &root.table, None, 2);
+                    sm_searched.fetch_add(1, Ordering::Relaxed);
+                    nodes.fetch_add(run.queries, Ordering::Relaxed);
+                    if run.panicked.is_some() {
+                        continue;
+                    }
+                    let infos: Vec<Info> = run.infos.iter().filter_map(|l| parse_info(l).ok()).collect();
+                    if infos.len() != run.sent.len() {
+                        continue;
+                    }
+                    for d in [1u32, 2] {
+                        if let Some(j) = infos.iter().rposition(|x| x.depth == d) {
+                            if let Some(m) = move_of_successor(pos, &run.sent[j]) {
+                                if !pos.make(&m).is_checkmate() {
+                                    rep.fail("C11", "mate-in-one-not-played/mate-by-special-move", format!("{}: a mate in one exists (by castling, en passant or promotion); iteration {} ends with {} ('{}') which does not mate", root.name, d, m.uci(), infos[j].raw), c11_case(&root, d as u8, &infos[j].raw));
+                                } else if infos[j].mate != Some(1) {
+                                    // the statement does not oblige the engine to ANNOUNCE a mate it plays: counted only
+                                    sm_unannounced.fetch_add(1, Ordering::Relaxed);
+                                }
+                            }
+                        }
+                    }
+                });
+            }
+        });
+    }
+    rep.add("roots_with_a_mate_in_one_by_castling_en_passant_or_promotion", sm_searched.load(Ordering::Relaxed));
+    rep.add("observation_mating_move_played_without_announcing_mate", sm_unannounced.load(Ordering::Relaxed));
+    rep.add("of_those_mate_by_en_passant", special_mates.iter().filter(|p| p.legal_moves().iter().any(|m| p.is_en_passant(m) && p.make(m).is_checkmate())).count() as u64);
+    rep.add("of_those_mate_by_castling", special_mates.iter().filter(|p| p.legal_moves().iter().any(|m| p.is_castle(m) && p.make(m).is_checkmate())).count() as u64);
     rep.add("mate_in_one_roots_swept_over_every_expiry_point", sweep_roots.len() as u64);
     rep.add("searches_run_to_their_own_end_all_99_iterations", full_runs.load(Ordering::Relaxed));
     rep.add("expiry_points_on_mate_in_one_roots", sweep_points.load(Ordering::Relaxed));
@@ -417,14 +462,72 @@ pub fn explore_c11(rep: &Report, finish: bool) -> i32 {
     rep.assume("an info line inside an iteration states the value of the move it names first; the last line of an iteration is the iteration's verdict on the root");
     let rule = format!("every legal non-terminal position of the complete KQK and KRK families{} searched by the real get_best_move to the end of iteration {}; every info line judged against exact distance-to-mate tables", if quick { " with the white king in the a1-d4 quarter" } else { "" }, depth);
     let rule = format!("{}; plus the back-rank family (kings behind three pawns, one rook each on any back-rank file a-f, one loose black knight/bishop/pawn on any square of ranks 3-6, both sides to move{}) searched to iteration {}: mate in one played, no blunder into mate in one handed back once iteration 2 has finished", rule, if quick { ", every 5th position" } else { "" }, if quick { 3 } else { 4 });
-    let rule = format!("{}; plus every clock-expiry index after the end of iteration 1 on {} roots with a mate in one: the move held always mates", rule, sweep_roots.len());
+    let rule = format!("{}; plus every clock-expiry index after the end of iteration 1 on {} roots with a mate in one: the move held always mates; plus every position of the castling / en-passant / promotion families in which such a move mates ({} roots)", rule, sweep_roots.len(), special_mates.len());
     if finish {
-        rep.finish(searched.load(Ordering::Relaxed) + b_searched.load(Ordering::Relaxed) + sweep_points.load(Ordering::Relaxed), nodes.load(Ordering::Relaxed), rep.get("tb_forward_validations"), true, &rule)
+        rep.finish(searched.load(Ordering::Relaxed) + b_searched.load(Ordering::Relaxed) + sweep_points.load(Ordering::Relaxed) + sm_searched.load(Ordering::Relaxed), nodes.load(Ordering::Relaxed), rep.get("tb_forward_validations"), true, &rule)
     } else {
-        rep.add("family_states", searched.load(Ordering::Relaxed) + b_searched.load(Ordering::Relaxed) + sweep_points.load(Ordering::Relaxed));
+        rep.add("family_states", searched.load(Ordering::Relaxed) + b_searched.load(Ordering::Relaxed) + sweep_points.load(Ordering::Relaxed) + sm_searched.load(Ordering::Relaxed));
         rep.add("family_transitions", nodes.load(Ordering::Relaxed));
         0
     }
+}
+
+/// Positions of the castling / en-passant / promotion families in which a SPECIAL move gives check
+/// (`mate` = false) or checkmate (`mate` = true); on a stride.
+pub fn special_move_check_positions(mate: bool, stride: usize) -> Vec<Pos> {
+    use crate::e1_posgraph::{family_castle, family_ep, family_ep_discovered, family_ep_discovered_with, family_promo};
+    let items: Vec<Box<dyn Fn() -> Vec<Pos> + Sync + Send>> = {
+        let mut v: Vec<Box<dyn Fn() -> Vec<Pos> + Sync + Send>> = Vec::new();
+        for c in [rules::WHITE, rules::BLACK] {
+            for ek in 0..64u8 {
+                v.push(Box::new(move || family_castle(c, 1, &[], ek)));
+            }
+            for f in 0..8i8 {
+                v.push(Box::new(move || family_ep(c, f)));
+                v.push(Box::new(move || family_ep_discovered(c, f)));
+                v.push(Box::new(move || family_ep_discovered_with(c, f, true)));
+                v.push(Box::new(move || family_promo(c, false, f)));
+                v.push(Box::new(move || family_promo(c, true, f)));
+            }
+        }
+        v
+    };
+    let out: std::sync::Mutex<Vec<Pos>> = std::sync::Mutex::new(Vec::new());
+    let idx = AtomicUsize::new(0);
+    std::thread::scope(|s| {
+        for _ in 0..threads() {
+            s.spawn(|| loop {
+                let i = idx.fetch_add(1, Ordering::Relaxed);
+                if i >= items.len() {
+                    break;
+                }
+                let mut keep = Vec::new();
+                for (n, p) in (items[i])().into_iter().enumerate() {
+                    // cheap filter first: some special pseudo-move of the side to move gives check
+                    let them = p.stm ^ 1;
+                    let special: Vec<Mv> = p.pseudo_moves().into_iter().filter(|m| p.is_castle(m) || p.is_en_passant(m) || m.promo != 0).collect();
+                    let mut hit = false;
+                    for m in &special {
+                        let c = p.make(m);
+                        if c.in_check(p.stm) || !c.in_check(them) {
+                            continue; // illegal, or no check
+                        }
+                        if !mate || c.legal_moves().is_empty() {
+                            hit = true;
+                            break;
+                        }
+                    }
+                    if hit && n % stride == 0 {
+                        keep.push(p);
+                    }
+                }
+                out.lock().unwrap().append(&mut keep);
+            });
+        }
+    });
+    let mut v = out.into_inner().unwrap();
+    v.sort_by_key(|p| p.fen());
+    v
 }
 
 /// `position fen <root> moves m x m' x'`: a blunder m (walks into mate in one), a quiet reply x, both taken back
@@ -534,6 +637,11 @@ fn c12_roots(rep: &Report, h: &ZobristHasher) -> Vec<Root> {
             }
         }
     }
+    // special moves that give check (castling with the rook, en passant with a discovered check, promotion):
+    // at the horizon the check extension has to see them
+    for p in special_move_check_positions(false, if quick { 60 } else { 3 }) {
+        roots.push(fresh_root(&p, h));
+    }
     // low-material roots of S1 with all move paths of length <= 2 (3 thorough) as history
     let plen = if quick { 2 } else { 3 };
     for (fen, _, _) in crate::e1_posgraph::S1_ROOTS {
@@ -569,6 +677,10 @@ fn c12_roots(rep: &Report, h: &ZobristHasher) -> Vec<Root> {
         "position fen 8/8/k7/p7/P7/K7/8/8 w - - 0 1 moves a3b3 a6b6 b3a3 b6a6 a3b3 a6b6 b3a3",
         "position fen 4k3/8/8/8/8/8/4P3/4K2R w K - 0 1 moves h1h2 e8d8 h2h1 d8e8 h1h2 e8d8 h2h1",
         "position fen 3qk3/8/8/8/8/8/8/3QK3 w - - 0 1 moves d1d2 d8d7 d2d1 d7d8 d1d2 d8d7",
+        "position fen 3q3k/8/8/8/8/8/8/K3R3 w - - 0 1 moves e1g1 h8h7 g1e1 h7h8 e1g1 h8h7 g1e1 h7h8",
+        "position fen 3q3k/8/8/8/8/8/8/K3R3 w - - 0 1 moves e1c1 h8h7 c1e1 h7h8 e1c1 h8h7 c1e1 h7h8",
+        "position fen k3r3/8/8/8/8/8/8/3Q3K b - - 0 1 moves e8g8 h1h2 g8e8 h2h1 e8g8 h1h2 g8e8 h2h1",
+        "position fen k3r3/8/8/8/8/8/8/3Q3K b - - 0 1 moves e8c8 h1h2 c8e8 h2h1 e8c8 h1h2 c8e8 h2h1",
     ] {
         roots.push(root_from_command(c, h));
     }
@@ -705,6 +817,6 @@ pub fn run_c12(rep: &Report) -> i32 {
     if skipped.load(Ordering::Relaxed) > 0 {
         rep.note(format!("{} positions skipped because the unpruned reference exceeded {} nodes (not counted as explored)", skipped.load(Ordering::Relaxed), node_cap));
     }
-    let rule = "every root of: KQK/KRK complete families on a stride, the complete K+P v K family with the pawn one or two steps from promotion (both colours, both sides to move), all move paths of length <= 2/3 from the low-material S1 roots (history preloaded through the real position command), the C07 roots, constructed repetition histories; iterations 1..3 (1..2 above 10 pieces); each reported (move, score) and each iteration's final score compared with plain negamax";
+    let rule = "every root of: KQK/KRK complete families on a stride, the complete K+P v K family with the pawn one or two steps from promotion (both colours, both sides to move), the positions of the castling / en-passant / promotion families in which such a move gives check (on a stride), all move paths of length <= 2/3 from the low-material S1 roots (history preloaded through the real position command), the C07 roots, constructed repetition histories; iterations 1..3 (1..2 above 10 pieces); each reported (move, score) and each iteration's final score compared with plain negamax";
     rep.finish(searched.load(Ordering::Relaxed), ref_nodes.load(Ordering::Relaxed), lines.load(Ordering::Relaxed), skipped.load(Ordering::Relaxed) == 0, rule)
 }
